@@ -24,37 +24,49 @@ Proof.
   apply (tp_covers_widen s b e b e _ _ (or_intror (conj (Z.le_refl b) (Z.le_refl e))) eq_refl eq_refl).
 Qed.
 
-Theorem tp_step_ok_model probes op pre :
-  tp_step_ok probes op pre (tp_apply op pre) (map (tp_is_inside (tp_apply op pre)) probes) = true.
+Theorem tp_step_ok_model ma probes op pre :
+  tp_step_ok ma probes op pre (tp_apply ma op pre) (map (tp_is_inside (tp_apply ma op pre)) probes) = true.
 Proof.
   unfold tp_step_ok. rewrite tp_ins_ok_model. cbn [andb].
   destruct (tp_noop op pre) eqn:Hn.
   { destruct op as [| | |own prefer incs excs b e clear]; try discriminate.
-    cbn [tp_noop] in Hn. cbn [tp_apply]. unfold tp_update_region. rewrite Hn. apply tp_st_eqb_refl. }
+    cbn [tp_noop] in Hn. cbn [tp_apply tp_noop_ok]. unfold tp_update_region_ma. rewrite Hn.
+    destruct ma; [|apply tp_st_eqb_refl].
+    destruct (tp_ve pre) as [v|] eqn:Hv; [|reflexivity].
+    destruct (tp_merge_only_spec prefer incs excs pre v Hv) as [Hv' Hs].
+    rewrite Hv'. cbn [tp_oz_eqb]. rewrite Z.eqb_refl. cbn [andb].
+    apply forallb_forall. intros t _. rewrite Hs. apply Bool.eqb_reflx. }
+  assert (tp_apply ma op pre = tp_apply false op pre) as Hsame.
+  { destruct op as [b e|b e|e|own prefer incs excs b e clear]; try reflexivity.
+    cbn [tp_apply tp_noop] in *. unfold tp_update_region_ma. rewrite Hn. reflexivity. }
+  rewrite Hsame.
+  assert (forall own prefer incs excs b e clear, op = TpOpUpdate own prefer incs excs b e clear ->
+          tp_apply false op pre = tp_update_region true (fun _ _ => own) prefer incs excs b e clear pre) as Hupd.
+  { intros own prefer incs excs b e clear ->. cbn [tp_apply]. apply tp_update_region_ma_pinned. }
   apply andb_true_intro; split.
   - (* window *)
-    destruct op as [b e|b e|e|own prefer incs excs b e clear]; cbn [tp_window_ok tp_apply].
+    destruct op as [b e|b e|e|own prefer incs excs b e clear]; cbn [tp_window_ok].
     + apply tp_covers_b_true, tp_add_covers_self.
     + apply tp_covers_b_true, tp_remove_covers_self.
     + reflexivity.
-    + apply tp_covers_b_true, tp_update_region_covers.
+    + rewrite (Hupd _ _ _ _ _ _ _ eq_refl). apply tp_covers_b_true, tp_update_region_covers.
       intros ->. cbn [tp_noop negb andb] in Hn. lia.
   - apply forallb_forall. intros t _.
-    destruct op as [b e|b e|e|own prefer incs excs b e clear]; cbn [tp_expect tp_apply].
-    + cbn [tp_add tp_segs]. rewrite tp_add_segs_inside_b. apply Bool.eqb_reflx.
-    + cbn [tp_remove tp_segs]. rewrite tp_remove_segs_inside_b. apply Bool.eqb_reflx.
-    + destruct (e <=? t) eqn:C; [|reflexivity]. rewrite tp_purge_spec by lia. apply Bool.eqb_reflx.
-    + rewrite tp_update_region_spec_b; [apply Bool.eqb_reflx|].
+    destruct op as [b e|b e|e|own prefer incs excs b e clear]; cbn [tp_expect].
+    + cbn [tp_apply tp_add tp_segs]. rewrite tp_add_segs_inside_b. apply Bool.eqb_reflx.
+    + cbn [tp_apply tp_remove tp_segs]. rewrite tp_remove_segs_inside_b. apply Bool.eqb_reflx.
+    + cbn [tp_apply]. destruct (e <=? t) eqn:C; [|reflexivity]. rewrite tp_purge_spec by lia. apply Bool.eqb_reflx.
+    + rewrite (Hupd _ _ _ _ _ _ _ eq_refl). rewrite tp_update_region_spec_b; [apply Bool.eqb_reflx|].
       intros ->. cbn [tp_noop negb andb] in Hn. lia.
 Qed.
 
-Fixpoint tp_model_trace (probes : list Z) (s : tp_st) (ops : list tp_op) : list (tp_op * tp_st * list bool) :=
+Fixpoint tp_model_trace (ma : bool) (probes : list Z) (s : tp_st) (ops : list tp_op) : list (tp_op * tp_st * list bool) :=
   match ops with
   | [] => []
-  | op :: r => let s' := tp_apply op s in (op, s', map (tp_is_inside s') probes) :: tp_model_trace probes s' r
+  | op :: r => let s' := tp_apply ma op s in (op, s', map (tp_is_inside s') probes) :: tp_model_trace ma probes s' r
   end.
 
-Theorem tp_oracle_accepts_model probes ops : tp_oracle probes (tp_model_trace probes tp_empty ops) = None.
+Theorem tp_oracle_accepts_model ma probes ops : tp_oracle ma probes (tp_model_trace ma probes tp_empty ops) = None.
 Proof.
   unfold tp_oracle. generalize tp_empty, 0. induction ops as [|op r IH]; intros s idx; [reflexivity|].
   cbn [tp_model_trace tp_oracle_from]. rewrite tp_step_ok_model. apply IH.
@@ -64,7 +76,7 @@ Qed.
 Theorem tp_oracle_rejects_pinned :
   let s1 := tp_add 9 17 tp_empty in
   let s2 := tp_remove false 9 10 s1 in
-  tp_oracle [8; 9; 10; 16; 17]
+  tp_oracle false [8; 9; 10; 16; 17]
     [(TpOpAdd 9 17, s1, map (tp_is_inside s1) [8; 9; 10; 16; 17]);
      (TpOpRemove 9 10, s2, map (tp_is_inside s2) [8; 9; 10; 16; 17])] = Some 1.
 Proof. vm_compute. reflexivity. Qed.
